@@ -50,7 +50,7 @@ tvars == <<vars, l, cid, mon, viol, ndiv, divs, dflag, ncases, nfaulted, nclean>
 
 \* prs/pre/prw: the previous observation of the job; phf: the stanza then at the head of the channel
 \* to the receiver did not come from the offering full JID for this session
-Mon0 == [nflt |-> 0, offered |-> FALSE, kinds |-> <<>>, ann |-> "both",
+Mon0 == [nflt |-> 0, offered |-> FALSE, kinds |-> <<>>, ann |-> "both", dev |-> "all",
          prs |-> "None", pre |-> "NoError", prw |-> 0, phf |-> FALSE]
 HeadForeign(o) == Len(o.s2r) > 0 /\ (o.s2r[1].from # "S" \/ o.s2r[1].sid # "ok")
 
@@ -60,7 +60,7 @@ TInit ==
     /\ ncases = 0 /\ nfaulted = 0 /\ nclean = 0
 
 ProjMsg(m) == [t |-> m.t, seq |-> m.seq, pay |-> m.pay, sid |-> m.sid, from |-> m.from]
-Proj == [rs |-> rState, re |-> rErr, rw |-> Len(got), ss |-> sState, se |-> sErr,
+Proj == [rs |-> rState, re |-> rErr, rw |-> nw, ss |-> sState, se |-> sErr,
          held |-> IF held.t = "none" THEN 0 ELSE 1,
          s2r |-> [i \in 1..Len(s2r) |-> ProjMsg(s2r[i])],
          r2s |-> [i \in 1..Len(r2s) |-> [t |-> r2s[i].t]]]
@@ -79,7 +79,7 @@ ModelAct(ev) ==
       [] OTHER             -> FALSE
 
 MonNext(m, ev) ==
-    [ann |-> m.ann, prs |-> ev.o.rs, pre |-> ev.o.re, prw |-> ev.o.rw, phf |-> HeadForeign(ev.o),
+    [ann |-> m.ann, dev |-> m.dev, prs |-> ev.o.rs, pre |-> ev.o.re, prw |-> ev.o.rw, phf |-> HeadForeign(ev.o),
      nflt |-> IF ev.e = "Fault" THEN m.nflt + 1 ELSE m.nflt,
      offered |-> m.offered \/ ev.e = "Offer",
      kinds |-> IF ev.e = "Fault" THEN Append(m.kinds, ev.k) ELSE m.kinds]
@@ -88,18 +88,18 @@ MonNext(m, ev) ==
 FailedStep(m, ev) ==
     LET o == ev.o IN
     {p \in {"Safe", "ForeignInert"} :
-        CASE p = "Safe" -> o.eq # -1 /\ ~P_Safe(m.ann, o.rs, o.re, o.eq = 1)
+        CASE p = "Safe" -> o.eq # -1 /\ ~P_Safe(m.ann, m.dev, o.rs, o.re, o.eq = 1)
           [] p = "ForeignInert" -> ev.e = "RDeliver" /\ ~P_ForeignInert(m.phf, m.prs, m.pre, m.prw, o.rs, o.re, o.rw)}
 FailedEnd(m, o) ==
     LET q == m.offered /\ Len(o.s2r) = 0 /\ Len(o.r2s) = 0 IN
     {p \in {"Safe", "FaultDetected", "CleanSuccess"} :
-        CASE p = "Safe"          -> ~P_Safe(m.ann, o.rs, o.re, o.eq = 1)
+        CASE p = "Safe"          -> ~P_Safe(m.ann, m.dev, o.rs, o.re, o.eq = 1)
           [] p = "FaultDetected" -> ~P_FaultDetected(m.ann, IF m.nflt = 1 THEN m.kinds[1] ELSE "none", m.nflt, o.rs, o.re)
-          [] p = "CleanSuccess"  -> ~P_CleanSuccess(m.nflt, q, o.rs, o.re, o.ss, o.se, o.eq = 1)}
+          [] p = "CleanSuccess"  -> ~P_CleanSuccess(m.nflt, m.dev, q, o.rs, o.re, o.ss, o.se, o.eq = 1)}
 
 ResetStep(ev) ==
-    /\ Reinit(ev.n, ev.ann)
-    /\ cid' = ev.case /\ mon' = [Mon0 EXCEPT !.ann = ev.ann] /\ dflag' = FALSE /\ ncases' = ncases + 1
+    /\ Reinit(ev.n, ev.ann, ev.dev, ev.devAt)
+    /\ cid' = ev.case /\ mon' = [Mon0 EXCEPT !.ann = ev.ann, !.dev = ev.dev] /\ dflag' = FALSE /\ ncases' = ncases + 1
     /\ UNCHANGED <<viol, ndiv, divs, nfaulted, nclean>>
 
 Diverge(d, model, impl) ==
